@@ -119,6 +119,14 @@ func (c c09Case) text() string {
 					case "dbracket":
 						sb.WriteString("    [[ ! -e \"$VCTL/on\" ]]\n")
 						continue
+					case "long":
+						// a command line of some 300 bytes
+						fmt.Fprintf(&sb, "    test ! -e \"$VCTL/on\" || sh -c 'exit %d' ignored %s\n", f.Status, strings.Repeat("a-rather-long-argument ", 12))
+						continue
+					case "cd":
+						// a bare change of directory: the directory "gate" is only there while nothing is to fail
+						sb.WriteString("    cd gate\n")
+						continue
 					}
 					if f.Status == 127 {
 						fmt.Fprintf(&sb, "    test ! -e \"$VCTL/on\" || nosuchcommand_verif_%d\n", k)
@@ -180,10 +188,10 @@ func c09Cases(tier string) []c09Case {
 				}
 				// the failing command in other syntactic shapes
 				for _, f := range singles {
-					for _, form := range []string{"subshell", "brace", "if", "negation", "dbracket"} {
+					for _, form := range []string{"subshell", "brace", "if", "negation", "dbracket", "long", "cd"} {
 						g := f
 						g.Form, g.Status = form, 3
-						if form == "negation" || form == "dbracket" {
+						if form == "negation" || form == "dbracket" || form == "cd" {
 							g.Status = 1
 						}
 						out = append(out, c09Case{Shape: sh.Name, NCmds: n, Fails: []c09Fail{g}, Mode: mode})
@@ -232,6 +240,7 @@ func c09Run(root string, c c09Case) (res []c09Obs, outcome string) {
 		t.File("home/w/proj/"+sh.taskName(i)+".txt", "v0\n")
 	}
 	t.File("ctl/on", "")
+	gate := filepath.Join(proj, "gate") // exists exactly while nothing is to fail
 	vlog := filepath.Join(ctl, "vlog")
 	env := []string{"VLOG=" + vlog, "VCTL=" + ctl}
 	args := append([]string{}, sh.Request...)
@@ -245,6 +254,7 @@ func c09Run(root string, c c09Case) (res []c09Obs, outcome string) {
 	}
 	if c.Warm {
 		os.Remove(filepath.Join(ctl, "on"))
+		t.Mkdir("home/w/proj/gate")
 		if w := bin.Run(proj, home, env, sh.Request...); w.Exit != 0 || w.Died() {
 			return []c09Obs{{"second-run-fails", fmt.Sprintf("a run without any failing command exits %d: %s", w.Exit, firstLines(w.Stderr, 3))}}, "warm-run-error"
 		}
@@ -252,6 +262,7 @@ func c09Run(root string, c c09Case) (res []c09Obs, outcome string) {
 			t.File("home/w/proj/"+sh.taskName(f.Task)+".txt", "v1\n")
 		}
 		t.File("ctl/on", "")
+		os.Remove(gate)
 		os.Remove(vlog)
 	}
 	o1 := bin.Run(proj, home, env, args...)
@@ -288,6 +299,7 @@ func c09Run(root string, c c09Case) (res []c09Obs, outcome string) {
 	}
 	// second, unforced run with the failure removed: the failed tasks must not count as up to date
 	os.Remove(filepath.Join(ctl, "on"))
+	t.Mkdir("home/w/proj/gate")
 	os.Remove(vlog)
 	o2 := bin.Run(proj, home, env, append(append([]string{}, sh.Request...), "--json")...)
 	log2, _ := os.ReadFile(vlog)
